@@ -18,74 +18,73 @@ Proof. exact (conj eq_refl (conj eq_refl (conj eq_refl eq_refl))). Qed.
    class/header/content lengths, any header pairs, any body) and every id: Decode, SetRequestId(id), Encode returns the
    n received frame bytes with exactly the 4 bytes of the request-id field replaced (patch b i p = takeN i b ++ p ++
    dropN (i + |p|) b), whatever `mem` the connection's read buffer holds by then. *)
-Theorem c01_fast_path_identity_bolt : forall v c n id mem, res (bolt_decode v) = Ok (c, n) ->
+Theorem c01_fast_path_identity :
+  (* c01_fast_path_identity_bolt *)
+  (forall v c n id mem, res (bolt_decode v) = Ok (c, n) ->
   exists c', bolt_encode mem (set_request_id id c) =
-             EncOk (patch (takeN n (vb v)) (reqid_off c) (be_enc 4 (id mod 4294967296))) c'.
-Proof. exact bolt_fast_path_identity. Qed.
-Print Assumptions c01_fast_path_identity_bolt.
-Theorem c01_fast_path_identity_boltv2 : forall v c n id mem, res (boltv2_decode v) = Ok (c, n) ->
+             EncOk (patch (takeN n (vb v)) (reqid_off c) (be_enc 4 (id mod 4294967296))) c') /\
+  (* c01_fast_path_identity_boltv2 *)
+  (forall v c n id mem, res (boltv2_decode v) = Ok (c, n) ->
   exists c', bolt_encode mem (set_request_id id c) =
-             EncOk (patch (takeN n (vb v)) (reqid_off c) (be_enc 4 (id mod 4294967296))) c'.
-Proof. exact boltv2_fast_path_identity. Qed.
-Print Assumptions c01_fast_path_identity_boltv2.
-Theorem c01_fast_path_identity_dubbo : forall hess v f n id mem, res (dubbo_decode hess v) = Ok (f, n) ->
-  dubbo_encode mem (dubbo_set_id id f) = patch (takeN n (vb v)) dubbo_IdIdx (be_enc 8 (id mod U64)).
-Proof. exact dubbo_fast_path_identity. Qed.
-Print Assumptions c01_fast_path_identity_dubbo.
-(* dubbo-thrift patches the id at MessageLenSize + HeaderLength - IdLen (uint16 arithmetic), i.e. where the header
-   length field of the frame says the id is; idx + 8 <= n excludes frames whose header length field points outside *)
-Theorem c01_fast_path_identity_thrift : forall tp v f n id mem, res (thrift_decode tp v) = Ok (f, n) ->
+             EncOk (patch (takeN n (vb v)) (reqid_off c) (be_enc 4 (id mod 4294967296))) c') /\
+  (* c01_fast_path_identity_dubbo *)
+  (forall hess v f n id mem, res (dubbo_decode hess v) = Ok (f, n) ->
+  dubbo_encode mem (dubbo_set_id id f) = patch (takeN n (vb v)) dubbo_IdIdx (be_enc 8 (id mod U64))) /\
+  (* c01_fast_path_identity_thrift *)
+  (forall tp v f n id mem, res (thrift_decode tp v) = Ok (f, n) ->
   let idx := (thrift_MessageLenSize + nth_num f 2 + U16 - thrift_IdLen) mod U16 in
   idx + 8 <= n ->
-  thrift_encode mem (thrift_set_id id f) = Some (patch (takeN n (vb v)) idx (be_enc 8 (id mod U64))).
-Proof. exact thrift_fast_path_identity. Qed.
-Print Assumptions c01_fast_path_identity_thrift.
+  thrift_encode mem (thrift_set_id id f) = Some (patch (takeN n (vb v)) idx (be_enc 8 (id mod U64)))).
+Proof. exact (conj bolt_fast_path_identity (conj boltv2_fast_path_identity (conj dubbo_fast_path_identity thrift_fast_path_identity))). Qed.
+Print Assumptions c01_fast_path_identity.
+(* dubbo-thrift patches the id at MessageLenSize + HeaderLength - IdLen (uint16 arithmetic), i.e. where the header
+   length field of the frame says the id is; idx + 8 <= n excludes frames whose header length field points outside *)
 
 (* READ BUFFER REUSE.  After any sequence of setters the encoder's output does not depend on the current content of
    the connection's read buffer (mem, mem' arbitrary): the decoded command owns a private copy. *)
-Theorem c01_buffer_independence_bolt : forall v c n ops mem mem', res (bolt_decode v) = Ok (c, n) ->
-  bolt_encode mem (fold_left apply_op ops c) = bolt_encode mem' (fold_left apply_op ops c).
-Proof. exact bolt_buffer_independence. Qed.
-Print Assumptions c01_buffer_independence_bolt.
-Theorem c01_buffer_independence_boltv2 : forall v c n ops mem mem', res (boltv2_decode v) = Ok (c, n) ->
-  bolt_encode mem (fold_left apply_op ops c) = bolt_encode mem' (fold_left apply_op ops c).
-Proof. exact boltv2_buffer_independence. Qed.
-Print Assumptions c01_buffer_independence_boltv2.
-Theorem c01_buffer_independence_dubbo : forall hess v f n id mem mem', res (dubbo_decode hess v) = Ok (f, n) ->
-  dubbo_encode mem (dubbo_set_id id f) = dubbo_encode mem' (dubbo_set_id id f).
-Proof. exact dubbo_buffer_independence. Qed.
-Print Assumptions c01_buffer_independence_dubbo.
+Theorem c01_buffer_independence :
+  (* c01_buffer_independence_bolt *)
+  (forall v c n ops mem mem', res (bolt_decode v) = Ok (c, n) ->
+  bolt_encode mem (fold_left apply_op ops c) = bolt_encode mem' (fold_left apply_op ops c)) /\
+  (* c01_buffer_independence_boltv2 *)
+  (forall v c n ops mem mem', res (boltv2_decode v) = Ok (c, n) ->
+  bolt_encode mem (fold_left apply_op ops c) = bolt_encode mem' (fold_left apply_op ops c)) /\
+  (* c01_buffer_independence_dubbo *)
+  (forall hess v f n id mem mem', res (dubbo_decode hess v) = Ok (f, n) ->
+  dubbo_encode mem (dubbo_set_id id f) = dubbo_encode mem' (dubbo_set_id id f)).
+Proof. exact (conj bolt_buffer_independence (conj boltv2_buffer_independence dubbo_buffer_independence)). Qed.
+Print Assumptions c01_buffer_independence.
 
 (* MODIFIED FRAMES.  For every decoded frame and EVERY sequence of SetRequestId / header Set / header Del / SetData
    that marks the frame changed: Encode either refuses (exactly when the class or the header block exceeds 65535 bytes
    or the body 2^32-1: `fits` is false), or returns bytes `out` that decode - all of them, as one frame, without error -
    to exactly the modified class, header pairs (in order) and body, with every other field unchanged, and whose three
    length fields are the true lengths. *)
-Theorem c01_modify_roundtrip_bolt : forall v c n ops mem, res (bolt_decode v) = Ok (c, n) ->
+Theorem c01_modify_roundtrip :
+  (* c01_modify_roundtrip_bolt *)
+  (forall v c n ops mem, res (bolt_decode v) = Ok (c, n) ->
   let c' := fold_left apply_op ops c in
   (b_hchanged c' || b_cchanged c') = true ->
   match bolt_encode mem c' with
   | EncErr => fits c' = false
   | EncOk out c'' => fits c' = true /\ b_classlen c'' = blen (b_class c') /\ b_headerlen c'' = hdr_enc_len (b_kvs c') /\ b_contentlen c'' = blen (b_content c') /\
       exists d, res (bolt_decode (view_of out)) = Ok (d, blen out) /\ b_herr d = false /\ same_content d c'
-  end.
-Proof. exact bolt_modify_roundtrip. Qed.
-Print Assumptions c01_modify_roundtrip_bolt.
-Theorem c01_modify_roundtrip_boltv2 : forall v c n ops mem, res (boltv2_decode v) = Ok (c, n) ->
+  end) /\
+  (* c01_modify_roundtrip_boltv2 *)
+  (forall v c n ops mem, res (boltv2_decode v) = Ok (c, n) ->
   let c' := fold_left apply_op ops c in
   (b_hchanged c' || b_cchanged c') = true ->
   match bolt_encode mem c' with
   | EncErr => fits c' = false
   | EncOk out c'' => fits c' = true /\ b_classlen c'' = blen (b_class c') /\ b_headerlen c'' = hdr_enc_len (b_kvs c') /\ b_contentlen c'' = blen (b_content c') /\
       exists d, res (bolt_decode (view_of out)) = Ok (d, blen out) /\ b_herr d = false /\ same_content d c'
-  end.
-Proof. exact boltv2_modify_roundtrip. Qed.
-Print Assumptions c01_modify_roundtrip_boltv2.
+  end) /\
+  (* c01_header_block_roundtrip *)
+  (forall chk kvs, kvs_ok kvs -> hdr_decode chk (hdr_encode kvs) = (HOk, kvs)).
+Proof. exact (conj bolt_modify_roundtrip (conj boltv2_modify_roundtrip hdr_roundtrip)). Qed.
+Print Assumptions c01_modify_roundtrip.
 
 (* header block: decode (encode kvs) = kvs for every list of pairs whose strings are shorter than 2^32-1 *)
-Theorem c01_header_block_roundtrip : forall chk kvs, kvs_ok kvs -> hdr_decode chk (hdr_encode kvs) = (HOk, kvs).
-Proof. exact hdr_roundtrip. Qed.
-Print Assumptions c01_header_block_roundtrip.
 
 (* the slow path before the repair (bolt_enc_checked = false) announced a truncated length: the full statement
    does not hold for that encoder *)
